@@ -1,7 +1,25 @@
 // appended to src/tools/error.rs (scratch copy only)
-#[cfg(kani)]
+#[cfg(any(kani, test))]
+#[allow(dead_code)]
 pub(crate) mod verif_kani_stubs {
     use super::FluteError;
+
+    /// minimal LCT header in front of the extensions: V=1, C=0 (32-bit CCI), no TSI/TOI, HDR_LEN=2
+    pub fn base_header(cp: u8) -> Vec<u8> {
+        vec![0x10, 0x00, 2, cp, 0, 0, 0, 0]
+    }
+
+    /// big-endian field of n bytes at offset `from` (independent of flute's readers)
+    pub fn be(d: &[u8], from: usize, n: usize) -> u128 {
+        let mut v: u128 = 0;
+        let mut i = 0;
+        while i < n {
+            v = (v << 8) | d[from + i] as u128;
+            i += 1;
+        }
+        v
+    }
+
     /// stub for alloc::fmt::format: the error *text* is not part of any property
     pub fn stub_format(_args: core::fmt::Arguments<'_>) -> String {
         String::new()
